@@ -754,7 +754,9 @@ def gen_history_cases(rng, count, kinds, base):
                 c["history"] = ["run"]
                 c["tratio"] = rng.choice([1, 2, 1.37, 2.0625]) if n <= 7 else 1      # run() makes ceil-like(tratio) steps
         c["nsteps"] = max(1, sum(1 for a in c["history"] if a == "step"))
-        c["wcap"] = 1          # C05W: one sampled call per kind of update is enough here (the base families carry the diagram tie)
+        # C05W: one sampled call per kind of update is enough here (the base families carry the diagram tie); none on the trees
+        # with more than 6 nodes, where the einsum of the whole <psi|H|psi> diagram of the value tie gets expensive
+        c["wcap"] = 1 if n <= 6 else 0
         c["hist"] = hk
         cases.append(c)
     return cases
